@@ -20,12 +20,22 @@
       re-raised error, or with `exit_on_error` the `fatal:` line + exit 1 of fix f47ae20);
     * counterexamples (`C20_cex_*`, by kernel evaluation of the model on the regenerated tables) for
       the defect classes of the pinned tree, and `C20_full_false`.
+    * the command line in EVERY spelling argparse accepts (`RattrModel/Argv.lean`: `parseArgumentsX`,
+      the model the driver runs): `C20_argv_refines_*` — on the canonical tokens of `Cli.lean` the
+      tokeniser-aware model IS `parseArguments`, so everything above transfers; `C20_respell_anywhere`
+      — two spellings that tokenise to lists the main loop cannot tell apart may be exchanged anywhere
+      before a `--`, for every namespace; instances for clusters of short flags (`-Hc FILE` =
+      `-H -c FILE`, all letters of the regenerated table: `C20_cluster_table`,
+      `C20_cluster_config_anywhere` — the first pass sees `-c` at the end of a cluster), attached
+      values (`--opt=V`, `-oV`), unambiguous prefixes (`C20_prefix_table`).
   Not proved (Tie B only): that `translate` of a multi-key table yields, per option, exactly the
   occurrences of that key (`translate_append`/`translate_single` give the shape).
 -/
 import RattrModel.Cli
+import RattrModel.Argv
 import RattrModel.Spec.Precedence
 import RattrModel.Generated.C20
+import RattrProofs.Lemmas.C20Argv
 
 namespace Rattr.C20
 open Rattr Rattr.Cli
@@ -914,6 +924,272 @@ theorem C20_full_false : ¬ C20_full := by
   rw [C20_cex_dash_value.2] at hns
   cases hns
 
+
+/-! ### Every spelling of the command line (argparse's tokeniser, `RattrModel/Argv.lean`) -/
+
+/-- On canonical tokens the tokeniser-aware main loop IS `Cli.run` (all token lists, all states). -/
+theorem C20_argv_refines_run (p hp : Parser) (toks : List Tok) (st : St) :
+    runE p hp (toks.map (canonTok p)) st = run p toks st :=
+  runE_canon p hp toks st
+
+/-- … `parse_args` with argparse's tokeniser IS `Cli.parse` on the canonical fragment … -/
+theorem C20_argv_refines_parse (p hp : Parser) (argv : List Text) (ns : Namespace)
+    (h : argv.all (canonText p hp) = true) :
+    parseX p hp argv ns = parse p (argv.map lex) ns :=
+  parseX_canon p hp argv ns h
+
+/-- … and `parse_arguments` over raw argv IS `Cli.parseArguments` whenever the command line and the
+`[tool.rattr]` tables in reach are canonical: every theorem above about `parseArguments` is a
+theorem about the model the driver runs. -/
+theorem C20_argv_refines_parse_arguments (w : World) (inputConf : Option Toml) (argv : List Text) (eoe : Bool)
+    (hargv : argv.all (canonText cliParser cliParserH) = true)
+    (htoml : ∀ c ∈ candidateConfs w inputConf, tomlCanon c = true) :
+    parseArgumentsX w inputConf argv eoe = parseArguments w inputConf argv eoe :=
+  parseArgumentsX_canon w inputConf argv eoe hargv htoml
+
+/-- Non-vacuity: a canonical command line with exact flags, a negative number and a value; a
+canonical table. -/
+example : ([.word (str "--threshold"), .num (-5), .word (str "-H"), .word (str "-c"), .word (str "o.toml"),
+            .word (str "t.py")] : List Text).all (canonText cliParser cliParserH) = true ∧
+    tomlCanon [(str "exclude", .list [.str (.word (str "a")), .str (.word (str "-x"))]),
+               (str "follow-imports", .sc (.int 2))] = true := by
+  decide +kernel
+
+/-- `--opt=VALUE` / `-oVALUE` is `--opt VALUE` inside the main loop, for every value text. -/
+theorem C20_attached_is_detached (p hp : Parser) (o : Opt) (f x : Str) (rest : List ETok) (st : St)
+    (h : takesArg o = true) :
+    runE p hp (.opt o f (some x) :: rest) st =
+      runE p hp (.opt o f none :: .arg (Text.ofStr x) :: rest) st :=
+  runE_attached p hp o f x rest st h
+
+/-- One step of cluster splitting inside the main loop (`consume_optional`'s explicit-argument
+loop): `-a<b…>` is `-a -<b…>` for a zero-argument flag `a` outside every mutually exclusive group. -/
+theorem C20_cluster_step (p hp : Parser) (a b : Opt) (fa : Str) (cb : Char) (x : Str)
+    (rest : List ETok) (st : St)
+    (ha : a.action = .storeTrue) (hm : a.mutex = none)
+    (hfa : (fa.getD 1 '-' != '-') = true) (hb : findFlag hp ['-', cb] = some b) :
+    runE p hp (.opt a fa (some (cb :: x)) :: rest) st =
+      runE p hp (.opt a fa none :: .opt b ['-', cb] (if x.isEmpty then none else some x) :: rest) st :=
+  runE_cluster_step p hp a b fa cb x rest st ha hm hfa hb
+
+/-- Exchange of spellings anywhere before a `--` (all prefixes, all suffixes, all namespaces). -/
+theorem C20_respell_anywhere (p hp : Parser) (w₁ w₂ : List Text) (X Y : List ETok)
+    (h₁ : noDD w₁ = true) (h₂ : noDD w₂ = true)
+    (t₁ : tokenise hp w₁ = .ok X) (t₂ : tokenise hp w₂ = .ok Y)
+    (hX : headIsOpt X = true) (hY : headIsOpt Y = true)
+    (hXY : ∀ post st, runE p hp (X ++ post) st = runE p hp (Y ++ post) st)
+    (pre post : List Text) (hpre : noDD pre = true) (ns : Namespace) :
+    parseX p hp (pre ++ (w₁ ++ post)) ns = parseX p hp (pre ++ (w₂ ++ post)) ns :=
+  parseX_respell p hp w₁ w₂ X Y h₁ h₂ t₁ t₂ hX hY hXY pre post hpre ns
+
+/-- `parse_arguments` sees the command line only through its `parse_args`: the FIRST pass (which
+only looks for `-c`) included. -/
+theorem C20_respell_parse_arguments (argv₁ argv₂ : List Text)
+    (h : ∀ ns, parseX cliParser cliParserH argv₁ ns = parseX cliParser cliParserH argv₂ ns)
+    (w : World) (inputConf : Option Toml) (eoe : Bool) :
+    parseArgumentsX w inputConf argv₁ eoe = parseArgumentsX w inputConf argv₂ eoe :=
+  parseArgumentsX_respell argv₁ argv₂ h w inputConf eoe
+
+theorem C20_cluster_split_anywhere (p hp : Parser) (a b : Opt) (ca cb : Char) (x : Str)
+    (hf : clusterFacts hp a b ca cb x = true)
+    (pre post : List Text) (hpre : noDD pre = true) (ns : Namespace) :
+    parseX p hp (pre ++ ([.word ('-' :: ca :: cb :: x)] ++ post)) ns =
+      parseX p hp (pre ++ ([.word ['-', ca], .word ('-' :: cb :: x)] ++ post)) ns :=
+  parseX_cluster_split p hp a b ca cb x hf pre post hpre ns
+
+theorem C20_attached_split_anywhere (p hp : Parser) (o : Opt) (f attached flagWord x : Str)
+    (hf : attachedFacts hp o f attached flagWord x = true)
+    (pre post : List Text) (hpre : noDD pre = true) (ns : Namespace) :
+    parseX p hp (pre ++ ([.word attached] ++ post)) ns =
+      parseX p hp (pre ++ ([.word flagWord, Text.ofStr x] ++ post)) ns :=
+  parseX_attached_split p hp o f attached flagWord x hf pre post hpre ns
+
+/-- The letters of the regenerated table: short zero-argument flags outside every mutually
+exclusive group (what may start / continue a cluster), and all short option letters. -/
+def shortLetters (hp : Parser) (pred : Opt → Bool) : List Char :=
+  (hp.filter pred).flatMap fun o => o.flags.filterMap fun f =>
+    match f with
+    | ['-', c] => if c != '-' then some c else none
+    | _ => none
+
+def clusterHeads : List Char := shortLetters cliParserH fun o => o.action == .storeTrue && o.mutex.isNone
+def allShort : List Char := shortLetters cliParserH fun _ => true
+
+/-- Over the regenerated table: EVERY two-letter cluster `-<a><b>` of a cluster head and a short
+option satisfies the cluster facts (with and without a sample attached value), as does every
+three-letter cluster of two heads and a short option. -/
+theorem C20_cluster_table :
+    clusterHeads ≠ [] ∧
+    (clusterHeads.all fun ca => allShort.all fun cb =>
+      match findFlag cliParserH ['-', ca], findFlag cliParserH ['-', cb] with
+      | some a, some b =>
+        clusterFacts cliParserH a b ca cb [] &&
+        (!takesArg b || clusterFacts cliParserH a b ca cb (str "o.toml")) &&
+        (clusterHeads.all fun c0 =>
+          match findFlag cliParserH ['-', c0] with
+          | some a0 => clusterFacts cliParserH a0 a c0 ca [cb]
+          | none => false)
+      | _, _ => false) = true := by
+  decide +kernel
+
+/-- The seeded-defect class, for all worlds and all command lines: `-c` at the end of a cluster of
+short flags (`-Hc FILE`, `-rc FILE`, …) is the same command line as `-H -c FILE`, in the first pass
+(TOML file selection) and in the last — wherever the cluster stands before a `--`. -/
+theorem C20_cluster_config_anywhere (ca : Char) (hca : ca ∈ clusterHeads)
+    (pre post : List Text) (hpre : noDD pre = true)
+    (w : World) (inputConf : Option Toml) (eoe : Bool) :
+    parseArgumentsX w inputConf (pre ++ ([.word ['-', ca, 'c']] ++ post)) eoe =
+      parseArgumentsX w inputConf (pre ++ ([.word ['-', ca], .word ['-', 'c']] ++ post)) eoe := by
+  have htab := C20_cluster_table.2
+  have h1 := (List.all_eq_true.mp htab) ca hca
+  have hc : 'c' ∈ allShort := by decide +kernel
+  have h2 := (List.all_eq_true.mp h1) 'c' hc
+  cases ha : findFlag cliParserH ['-', ca] with
+  | none => simp [ha] at h2
+  | some a =>
+    cases hb : findFlag cliParserH ['-', 'c'] with
+    | none => simp [ha, hb] at h2
+    | some b =>
+      simp only [ha, hb, Bool.and_eq_true] at h2
+      apply parseArgumentsX_respell
+      intro ns
+      exact parseX_cluster_split cliParser cliParserH a b ca 'c' [] h2.1.1 pre post hpre ns
+
+/-- The same for EVERY short option at the end of a two-letter cluster. -/
+theorem C20_cluster_any_option_anywhere (ca cb : Char) (hca : ca ∈ clusterHeads) (hcb : cb ∈ allShort)
+    (pre post : List Text) (hpre : noDD pre = true)
+    (w : World) (inputConf : Option Toml) (eoe : Bool) :
+    parseArgumentsX w inputConf (pre ++ ([.word ['-', ca, cb]] ++ post)) eoe =
+      parseArgumentsX w inputConf (pre ++ ([.word ['-', ca], .word ['-', cb]] ++ post)) eoe := by
+  have h2 := (List.all_eq_true.mp ((List.all_eq_true.mp C20_cluster_table.2) ca hca)) cb hcb
+  cases ha : findFlag cliParserH ['-', ca] with
+  | none => simp [ha] at h2
+  | some a =>
+    cases hb : findFlag cliParserH ['-', cb] with
+    | none => simp [ha, hb] at h2
+    | some b =>
+      simp only [ha, hb, Bool.and_eq_true] at h2
+      apply parseArgumentsX_respell
+      intro ns
+      exact parseX_cluster_split cliParser cliParserH a b ca cb [] h2.1.1 pre post hpre ns
+
+/-- Over the regenerated table: the shape of the option strings (`-c` or `--…`, no two alike) and of
+the short letters (none is `-` or `=`), and every cluster head is a zero-argument flag outside the
+mutually exclusive groups. -/
+theorem C20_short_table :
+    shortWf cliParserH = true ∧ (allFlags cliParserH).Nodup ∧
+    (allShort.all fun c => c != '-' && c != '=' && (findFlag cliParserH ['-', c]).isSome) = true ∧
+    (clusterHeads.all fun c => c != '-' &&
+      match findFlag cliParserH ['-', c] with
+      | some a => a.action == .storeTrue && a.mutex == none
+      | none => false) = true := by
+  decide +kernel
+
+/-- The seeded-defect class with an ATTACHED rest, for all worlds, all command lines and EVERY rest
+text (`-HcFILE`, `-rxPATTERN`, `-HTcFILE` = `-H -TcFILE` = `-H -T -cFILE`): a cluster head followed
+by a short option letter and at least one more character (not `=`) is the head, then the rest. -/
+theorem C20_cluster_attached_anywhere (ca cb x0 : Char) (x : Str)
+    (hca : ca ∈ clusterHeads) (hcb : cb ∈ allShort) (hx0 : x0 ≠ '=')
+    (pre post : List Text) (hpre : noDD pre = true)
+    (w : World) (inputConf : Option Toml) (eoe : Bool) :
+    parseArgumentsX w inputConf (pre ++ ([.word ('-' :: ca :: cb :: x0 :: x)] ++ post)) eoe =
+      parseArgumentsX w inputConf (pre ++ ([.word ['-', ca], .word ('-' :: cb :: x0 :: x)] ++ post)) eoe := by
+  obtain ⟨wf, nd, hs, hh⟩ := C20_short_table
+  have h1 := (List.all_eq_true.mp hh) ca hca
+  have h2 := (List.all_eq_true.mp hs) cb hcb
+  simp only [Bool.and_eq_true, bne_iff_ne, ne_eq] at h1 h2
+  cases hfa : findFlag cliParserH ['-', ca] with
+  | none => simp [hfa] at h1
+  | some a =>
+    cases hfb : findFlag cliParserH ['-', cb] with
+    | none => simp [hfb] at h2
+    | some b =>
+      simp only [hfa, Bool.and_eq_true, beq_iff_eq] at h1
+      apply parseArgumentsX_respell
+      intro ns
+      exact parseX_cluster_split cliParser cliParserH a b ca cb (x0 :: x)
+        (clusterFacts_attached cliParserH wf nd a b ca cb x0 x h1.2.1 h1.2.2 hfa hfb h1.1 h2.1.1 h2.1.2 hx0)
+        pre post hpre ns
+
+/-- Non-vacuity: `-Hco.toml` is `-H -co.toml`, which is `-H -c o.toml` (`C20_attached_split_anywhere`). -/
+example : 'H' ∈ clusterHeads ∧ 'c' ∈ allShort ∧
+    (match findFlag cliParserH (str "-c") with
+     | some o => attachedFacts cliParserH o (str "-c") (str "-co.toml") (str "-c") (str "o.toml")
+     | none => false) = true := by
+  decide +kernel
+
+/-- Over the regenerated table: a proper prefix (≥ 3 characters, not itself an option string) of a
+long option string classifies exactly like the full option string when it is a prefix of no other
+option string, and is an "ambiguous option" error otherwise — with and without `=value`. -/
+theorem C20_prefix_table :
+    ((allFlags cliParserH).all fun f =>
+      (List.range f.length).all fun n =>
+        let s := f.take n
+        n < 3 || (allFlags cliParserH).contains s ||
+          (if ((allFlags cliParserH).filter fun g => s.isPrefixOf g).length == 1 then
+             classify cliParserH (.word s) == classify cliParserH (.word f) &&
+             (match findFlag cliParserH f with
+              | some o => classify cliParserH (.word (s ++ str "=v")) == .ok (.opt o f (some (str "v")))
+              | none => false)
+           else
+             classify cliParserH (.word s) == .error .ambiguousOption &&
+             classify cliParserH (.word (s ++ str "=v")) == .error .ambiguousOption)) = true := by
+  decide +kernel
+
+/-- Two words with the same classification are the same command line, anywhere before a `--`. -/
+theorem C20_same_class_anywhere (p hp : Parser) (t₁ t₂ : Text) (k : ETok)
+    (c₁ : classify hp t₁ = .ok k) (c₂ : classify hp t₂ = .ok k)
+    (d₁ : t₁ ≠ .word ['-', '-']) (d₂ : t₂ ≠ .word ['-', '-'])
+    (pre post : List Text) (hpre : noDD pre = true) (ns : Namespace) :
+    parseX p hp (pre ++ ([t₁] ++ post)) ns = parseX p hp (pre ++ ([t₂] ++ post)) ns := by
+  unfold parseX
+  rw [tokenise_append hp pre _ hpre, tokenise_append hp pre _ hpre,
+      tokenise_append hp [t₁] _ (by simp [noDD, d₁]), tokenise_append hp [t₂] _ (by simp [noDD, d₂]),
+      tokenise_one hp t₁ k d₁ c₁, tokenise_one hp t₂ k d₂ c₂]
+
+/-! #### Witnesses (kernel evaluation on the regenerated tables; these are TESTS of the model) -/
+
+private def wBoth : World :=
+  { overrideFile := some (.table [(str "follow-imports", .sc (.int 2))]),
+    cwd := { vcs := false, pyproject := some (.table [(str "follow-imports", .sc (.int 0))]) }, parents := [] }
+
+/-- Every spelling of `-H -c o.toml t.py` selects the override file (follow-imports = 2, not the
+project's 0) and records the override path. -/
+theorem C20_witness_override_spellings :
+    ([[str "-H", str "-c", str "o.toml", str "t.py"], [str "-Hc", str "o.toml", str "t.py"],
+      [str "-Hco.toml", str "t.py"], [str "-HTrc", str "o.toml", str "t.py"], [str "t.py", str "-rHco.toml"],
+      [str "-H", str "--config=o.toml", str "t.py"], [str "-H", str "--conf", str "o.toml", str "t.py"],
+      [str "-H", str "--con=o.toml", str "--", str "t.py"], [str "-H=c", str "o.toml", str "t.py"],
+      [str "-H", str "-c=o.toml", str "t.py", str "--"]].all fun argv =>
+      let out := parseArgumentsX wBoth none (argv.map Text.ofStr) false
+      outGet out (str "_follow_imports_level") == some (.int 2) &&
+      outGet out (str "pyproject_toml_override") == some (.text (.word (str "o.toml"))) &&
+      outGet out (str "collapse_home") == some (.bool true)) = true := by
+  decide +kernel
+
+/-- Corners of the tokeniser: an attached value may look like an option, a detached one may not;
+explicit arguments to flags, unknown cluster letters, ambiguous prefixes and a misplaced `--` are
+command-line errors (raised in the FIRST pass). -/
+theorem C20_witness_tokeniser_corners :
+    outGet (parseArgumentsX w0 none ([str "--exclude=-x", str "-x-y", str "t.py"].map Text.ofStr) false)
+        (str "_excluded_names") = some (.texts [.word (str "-x"), .word (str "-y")]) ∧
+    parseArgumentsX w0 none ([str "--exclude", str "-x", str "t.py"].map Text.ofStr) false
+      = .cliError (.expectedOneArgument (str "_excluded_names")) ∧
+    parseArgumentsX w0 none ([str "--strict=1", str "t.py"].map Text.ofStr) false
+      = .cliError (.ignoredExplicitArgument (str "is_strict")) ∧
+    parseArgumentsX w0 none ([str "-Hz", str "t.py"].map Text.ofStr) false
+      = .cliError (.ignoredExplicitArgument (str "collapse_home")) ∧
+    parseArgumentsX w0 none ([str "--c", str "o.toml", str "t.py"].map Text.ofStr) false
+      = .cliError .ambiguousOption ∧
+    parseArgumentsX w0 none ([str "--", str "-H", str "t.py"].map Text.ofStr) false
+      = .cliError .unrecognized ∧
+    parseArgumentsX w0 none ([str "-x", str "--", str "a", str "t.py"].map Text.ofStr) false
+      = .cliError (.expectedOneArgument (str "_excluded_names")) ∧
+    parseArgumentsX w0 none ([str "--"].map Text.ofStr) false = .cliError .required ∧
+    outGet (parseArgumentsX w0 none ([str "--threshold=-5", str "--", str "t.py"].map Text.ofStr) false)
+        (str "threshold") = some (.int (-5)) := by
+  decide +kernel
+
 /-! ### Tie A: what the model hard-codes about the tables is what the source says now -/
 
 /-- The model's tables are the regenerated ones. -/
@@ -971,6 +1247,19 @@ theorem tieA_toml_name_map :
     tomlNameMap = Generated.C20.tomlNameMap.map (fun (k, v) => (str k, str v)) ∧
     tomlNameMap.all (fun (k, _) => Dict.contains tomlTypeMap k) = true := by
   refine ⟨rfl, ?_⟩
+  decide +kernel
+
+/-- What the tokeniser model assumes of both parsers: abbreviations allowed, no `@file` arguments,
+the help action's option strings as regenerated, no two actions share an option string, exactly
+one positional on the command-line parser and none on the TOML parser. -/
+theorem tieA_tokeniser :
+    Generated.C20.allowAbbrev = [true, true] ∧ Generated.C20.noFromFile = true ∧
+    cliParserH = cliParser ++ [helpOpt (Generated.C20.cliHelpFlags.map str)] ∧
+    tomlParserH = tomlParser ++ [helpOpt (Generated.C20.tomlHelpFlags.map str)] ∧
+    (allFlags cliParserH).Nodup ∧ (allFlags tomlParserH).Nodup ∧
+    hasNegLikeFlags cliParserH = false ∧ hasNegLikeFlags tomlParserH = false ∧
+    (cliParser.filter fun o => o.flags.isEmpty).length = 1 ∧
+    (tomlParser.filter fun o => o.flags.isEmpty).length = 0 := by
   decide +kernel
 
 end Rattr.C20
